@@ -19,6 +19,9 @@ class ExecMixin(object):
     _unroll_tag = 0
 
     def site(self, frame, node):
+        cs = getattr(frame, "callsite", None)
+        if cs is not None:
+            return (cs[0], cs[1], cs[2] + 1000 * self._unroll_tag)
         # inside an unrolled constant loop every iteration gets its own sites
         return (self.repo.modules[frame.func.module].path,
                 getattr(node, "lineno", 0),
@@ -395,6 +398,62 @@ class ExecMixin(object):
         self.ev(state, "reg_set", frame, stmt, reg=base, key=key, value=value)
         return [(state, NORMAL)]
 
+    def _run_contextmanager(self, node, cm, state, frame):
+        from .interp import Frame
+        fi, pre, yval, post = cm
+        ce = node.items[0].context_expr
+        out = []
+        for (s, vals) in self.eval_seq(list(ce.args) + [k.value for k in ce.keywords],
+                                       state, frame):
+            if isinstance(vals, Outcome):
+                out.append((s, vals))
+                continue
+            args = vals[:len(ce.args)]
+            kwargs = dict(zip([k.arg for k in ce.keywords], vals[len(ce.args):]))
+            nf = Frame(fi, None, frame.depth + 1)
+            env = {}
+            params = list(fi.params)
+            for j, pn in enumerate(params):
+                if j < len(args):
+                    env[pn] = args[j]
+                elif pn in kwargs:
+                    env[pn] = kwargs[pn]
+                else:
+                    dj = j - (len(params) - len(fi.defaults))
+                    env[pn] = self.fold(fi.defaults[dj], self.repo.modules[fi.module]) \
+                        if dj >= 0 else ("unknown", "missing-arg:" + pn)
+            s.envs[nf.fid] = env
+            s.stack = s.stack + (fi.qualname,)
+            for (s1, o1) in self.exec_block(pre, s, nf):
+                if o1.kind != "normal":
+                    s1.stack = s1.stack[:-1]
+                    out.append((s1, o1))
+                    continue
+                ys = self.eval(yval, s1, nf) if yval is not None else [(s1, NONE)]
+                for (s2, yv) in ys:
+                    if isinstance(yv, Outcome):
+                        s2.stack = s2.stack[:-1]
+                        out.append((s2, yv))
+                        continue
+                    s2.stack = s2.stack[:-1]
+                    starts = [(s2, NORMAL)]
+                    if node.items[0].optional_vars is not None:
+                        starts = self.assign(node.items[0].optional_vars, yv, s2, frame, node)
+                    for (s3, o3) in starts:
+                        for (s4, o4) in self.exec_block(node.body, s3, frame):
+                            if o4.kind == "raise":
+                                # thrown into the generator at the yield: no
+                                # handler there, post is skipped
+                                out.append((s4, o4))
+                                continue
+                            s4.stack = s4.stack + (fi.qualname,)
+                            for (s5, o5) in self.exec_block(post, s4, nf):
+                                s5.stack = s5.stack[:-1]
+                                out.append((s5, o4 if o5.kind == "normal" else o5))
+        for (sx, _) in out:
+            sx.envs.pop(nf.fid, None) if out else None
+        return out
+
     # -- function definitions ------------------------------------------------
     def st_FunctionDef(self, node, state, frame):
         from .repo import FuncInfo
@@ -416,7 +475,26 @@ class ExecMixin(object):
             return False
         return True
 
+    def _is_type_assertion(self, node):
+        """`if not isinstance(x, T): raise TypeError(...)` (or AssertionError):
+        the explicit spelling of `assert isinstance(x, T)` -- like an assert it
+        is an assumption about the types of internal values (DESIGN: asserts
+        on identifiers are assumptions), not a branch of the protocol"""
+        t = node.test
+        if node.orelse or len(node.body) != 1 or not isinstance(node.body[0], ast.Raise):
+            return False
+        if not (isinstance(t, ast.UnaryOp) and isinstance(t.op, ast.Not) and
+                isinstance(t.operand, ast.Call) and isinstance(t.operand.func, ast.Name)
+                and t.operand.func.id == "isinstance"):
+            return False
+        exc = node.body[0].exc
+        if isinstance(exc, ast.Call):
+            exc = exc.func
+        return isinstance(exc, ast.Name) and exc.id in ("TypeError", "AssertionError")
+
     def st_If(self, node, state, frame):
+        if self._is_type_assertion(node):
+            return [(state, NORMAL)]
         out = []
         n0 = len(state.events)
         pc0 = state.pc
@@ -540,7 +618,42 @@ class ExecMixin(object):
         return False
 
     # -- with ----------------------------------------------------------------
+    def _simple_contextmanager(self, node, state, frame):
+        """`with helper(args) [as v]:` where helper is a function of the package
+        decorated with contextlib.contextmanager and shaped  pre; yield X; post
+        (no try around the yield): the block runs between pre and post, and
+        post is skipped when the block raises.  Returns (fi, pre, yield value
+        node, post) or None."""
+        if len(node.items) != 1:
+            return None
+        ce = node.items[0].context_expr
+        if not (isinstance(ce, ast.Call) and isinstance(ce.func, ast.Name)):
+            return None
+        tgt = self.lookup_name(ce.func.id, state, frame)
+        if tgt[0] != "func":
+            return None
+        fi = self.repo.function(tgt[1], tgt[2])
+        if fi is None:
+            return None
+        from .repo import dotted
+        if not any((dotted(d) or "").split(".")[-1] == "contextmanager"
+                   for d in fi.node.decorator_list):
+            return None
+        body = [st for st in fi.node.body
+                if not (isinstance(st, ast.Expr) and isinstance(st.value, ast.Constant))]
+        idx = [i for i, st in enumerate(body)
+               if isinstance(st, ast.Expr) and isinstance(st.value, ast.Yield)]
+        nyields = sum(1 for n in ast.walk(fi.node) if isinstance(n, (ast.Yield, ast.YieldFrom)))
+        if len(idx) != 1 or nyields != 1:
+            raise AnalysisError("context manager %s is not of the form pre; yield; post "
+                                "(%s:%d)" % (fi.qualname, frame.func.module, node.lineno))
+        i = idx[0]
+        return fi, body[:i], body[i].value.value, body[i + 1:]
+
     def st_With(self, node, state, frame):
+        cm = self._simple_contextmanager(node, state, frame)
+        if cm is not None:
+            return self._run_contextmanager(node, cm, state, frame)
         res = [(state, NORMAL)]
         dbs = []   # database handles used as context managers (sqlite3:
         #            commit when the block is left normally, rollback on an
